@@ -172,6 +172,7 @@ func scenarios() []scenario {
 
 func (m *mon) partC(sc scenario) {
 	run := m.run
+	run.Eval()
 	r := newReplica()
 	defer r.Close()
 	type step struct {
@@ -223,8 +224,7 @@ func (m *mon) partC(sc scenario) {
 			rej++
 		}
 	}
-	run.Eval()
-	run.Count("dependency_scenarios")
+	run.Count("dependency_scenarios_completed")
 	last := hist[len(hist)-1]
 	if strings.HasPrefix(last.Result, "accepted") {
 		run.Count("dependency_scenarios_modification_accepted")
